@@ -50,7 +50,7 @@ func c16(c *wk.Ctx) {
 	}()
 	var sess bus.Session
 	n := 0
-	c.Cases("plan", c.Pick(1200, 30000), func(i int, rng *rand.Rand) {
+	c.Cases("plan", c.Pick(1200, 120000), func(i int, rng *rand.Rand) {
 		if w == nil || n%60 == 0 {
 			if w != nil {
 				sess.Terminate()
@@ -70,8 +70,8 @@ func c16(c *wk.Ctx) {
 		n++
 		c16one(c, i, rng, w, sess, fmt.Sprintf("P%d", n))
 	})
-	c.Cases("flood", c.Pick(40, 1500), func(i int, rng *rand.Rand) { c16flood(c, i, rng) })
-	c.Cases("crowd", c.Pick(150, 6000), func(i int, rng *rand.Rand) {
+	c.Cases("flood", c.Pick(40, 4000), func(i int, rng *rand.Rand) { c16flood(c, i, rng) })
+	c.Cases("crowd", c.Pick(150, 20000), func(i int, rng *rand.Rand) {
 		if w == nil || n%60 == 0 {
 			if w != nil {
 				sess.Terminate()
